@@ -11,7 +11,9 @@ Seed == atoi(IOEnv.VERIF_SEED)
 Tup(s) == [i \in 1..Len(s) |-> s[i]]
 DefLine(i) == LET d == Defs[i] IN
   [k |-> "def", d |-> i, ty |-> d.ty, len |-> d.len, dvs |-> Tup(d.dvs),
-   rg |-> IF d.lo = <<>> THEN <<>> ELSE Tup(d.lo \o <<45>> \o d.hi)]
+   rg |-> IF d.lo = <<>> THEN <<>> ELSE Tup(d.lo \o <<45>> \o d.hi),
+   \* semantic attributes, only used to label rejected records with a signature
+   kind |-> d.kind, bits |-> d.bits, fb |-> d.fb, rev |-> d.rev, div |-> d.div, nvals |-> Len(d.vals)]
 CasesOf(i) ==
   LET T == TextsOf(Defs[i], Thorough) \cup (IF Thorough THEN RandTexts(Seed + 7 * i, 120) ELSE {})
       sq == SetToSeq(T)
